@@ -47,6 +47,12 @@ func UserFields() []ref.Field {
 		if err := registry.PutInfoElement(*entities.NewInfoElement(FixedString.Name, FixedString.ID, LibType(FixedString.Type), FixedString.Ent, FixedString.Len), UserEnt); err != nil {
 			panic(err)
 		}
+		// an unsigned32 element registered with length 2 (reduced-size encoding, which the library does
+		// not implement): in no pool; used by C03 only, which demands nothing of it but survival
+		ReducedU32 = ref.Field{ID: 901, Ent: UserEnt, Len: 2, Type: ref.TU32, Name: "userReducedU32"}
+		if err := registry.PutInfoElement(*entities.NewInfoElement(ReducedU32.Name, ReducedU32.ID, LibType(ReducedU32.Type), ReducedU32.Ent, ReducedU32.Len), UserEnt); err != nil {
+			panic(err)
+		}
 		for _, f := range userFields {
 			ie := entities.NewInfoElement(f.Name, f.ID, LibType(f.Type), f.Ent, f.Len)
 			if err := registry.PutInfoElement(*ie, UserEnt); err != nil {
@@ -59,6 +65,9 @@ func UserFields() []ref.Field {
 
 // FixedString is a user-registered string element declared with a fixed length of 16.
 var FixedString ref.Field
+
+// ReducedU32 is a user-registered unsigned32 element declared with length 2.
+var ReducedU32 ref.Field
 
 // UserField returns the user-registered element of type t (variable-length for octets/string).
 func UserField(t ref.Type) ref.Field { return UserFields()[int(t)] }
